@@ -60,6 +60,9 @@ def strategy(draw, tier="quick"):
                     bins=draw(st.sampled_from([None, None, 7, 40])), width=draw(st.sampled_from([0.005, 0.05, 0.13])))
     if what == "moments":
         case["offset"] = draw(st.sampled_from([0.0, 0.0, 30.0, 300.0]))      # the whole system far from the origin
+        # ideal shapes lying exactly along an axis / in a coordinate plane (the shape tensors are then exactly diagonal, with the
+        # zero entries wherever the flat axes are)
+        case["shape"] = draw(st.sampled_from([None, None, None, "rod-x", "rod-y", "rod-z", "plate-xy", "plate-yz", "plate-xz"]))
     if what == "rdf_t":
         case.update(nf=draw(st.integers(2, 5)), rhi=draw(st.sampled_from([1.0, 0.6])), bins=draw(st.sampled_from([5, 20])),
                     self_corr=draw(st.booleans()), n_conc=draw(st.sampled_from([100000, 7, 10, 64])), npairs=draw(st.integers(3, 40)),
@@ -96,6 +99,11 @@ def build(case):
     x0 -= x0.min(0) - 0.5
     x0 += case.get("offset", 0.0) * np.array([1.0, -0.7, 0.4])
     xyz = np.array([x0 + rng.normal(0, case["noise"] * (1 + f), x0.shape) for f in range(nf)]).astype(np.float32)
+    if case.get("shape"):
+        keep_ax = {"rod-x": [0], "rod-y": [1], "rod-z": [2], "plate-xy": [0, 1], "plate-yz": [1, 2], "plate-xz": [0, 2]}[case["shape"]]
+        for ax in range(3):
+            if ax not in keep_ax:
+                xyz[:, :, ax] = 0.0
     t = md.Trajectory(xyz, sub.topology, time=np.arange(nf) * 1.0)
     need_cell = case["what"] in ("rdf", "rdf_t", "density", "dipole", "volume-stats")
     cell = case["cell"] or ("ortho" if need_cell else None)
